@@ -86,6 +86,7 @@ func main() {
 	}
 	rs := rewriteSet{}
 	goStmt := map[string]bool{}
+	entryPoint := map[string][2]string{} // file -> {receiver type, method}: vsched.Extra(...) as the first statement
 	if feat["sched"] {
 		// bytespool: its size-class pools become vsync.Pool = deterministic LIFO free lists, so which dirty
 		// buffer a search or a seal gets back is a function of the schedule alone (sync.Pool's per-P caches
@@ -101,6 +102,9 @@ func main() {
 				rs.add(f, "sync", module+"/zzverif/vsync")
 			}
 		}
+		// optional scheduling point (vsched.Extra, off unless a scenario asks) where FileWriter reserves its offset
+		// with an atomic add: the order of concurrent writers' docs / meta writes becomes explorable
+		entryPoint["frac/file_writer.go"] = [2]string{"FileWriter", "Write"}
 		goStmt["fracmanager/fetcher.go"] = true
 		goStmt["fracmanager/searcher.go"] = true
 	}
@@ -182,6 +186,9 @@ func main() {
 	for f := range goStmt {
 		files[f] = true
 	}
+	for f := range entryPoint {
+		files[f] = true
+	}
 	var names []string
 	for f := range files {
 		names = append(names, f)
@@ -237,6 +244,30 @@ func main() {
 			}
 			nGo += found
 			// add import after package clause
+			last := af.Imports[len(af.Imports)-1]
+			edits = append(edits, edit{off(last.End()), off(last.End()), "\n\t\"" + module + "/zzverif/vsched\""})
+			changed = true
+		}
+		if ep, ok := entryPoint[rel]; ok {
+			found := 0
+			for _, d := range af.Decls {
+				fd, ok := d.(*ast.FuncDecl)
+				if !ok || fd.Name.Name != ep[1] || fd.Recv == nil || len(fd.Recv.List) != 1 || fd.Body == nil {
+					continue
+				}
+				st, ok := fd.Recv.List[0].Type.(*ast.StarExpr)
+				if !ok {
+					continue
+				}
+				if id, ok := st.X.(*ast.Ident); !ok || id.Name != ep[0] {
+					continue
+				}
+				edits = append(edits, edit{off(fd.Body.Lbrace) + 1, off(fd.Body.Lbrace) + 1, "\n\tvsched.Extra(\"" + ep[0] + "." + ep[1] + "\")"})
+				found++
+			}
+			if found != 1 {
+				fatal("%s: expected exactly one method (*%s).%s, found %d", rel, ep[0], ep[1], found)
+			}
 			last := af.Imports[len(af.Imports)-1]
 			edits = append(edits, edit{off(last.End()), off(last.End()), "\n\t\"" + module + "/zzverif/vsched\""})
 			changed = true
